@@ -217,6 +217,53 @@ def task_sw(ctx, cfg, sa, sb, seed):
   prove_close(ctx, 'sw.tendencies_equal_in_SI', both, [v, d, p], sp, config=dict(grid=grids.cfg_name(cfg), scale_a=sa, scale_b=sb))
 
 
+def task_sw_trajectory(ctx, cfg, sa, sb, seed, outer=2):
+  """The same SI shallow-water problem (constants, orography, mean potentials, time step of 600 s, filters) integrated by the library's own
+  trajectory builder under two unit scales: every saved frame is equal once converted back to SI, for ALL pairs of starting time levels."""
+  from dinosaur import shallow_water as sw, scales, coordinate_systems as cs, layer_coordinates as lc
+  u = scales.units
+  T = scale_table(seed)
+  sA, sB = T[sa], T[sb]
+  f = factors(sA, sB)
+  nl = 1
+  dens = np.array([1.0]) * scales.WATER_DENSITY
+  rng = np.random.default_rng(23)
+  dt_si = 600.0 * u.s
+
+  def build(scale):
+    specs = sw.ShallowWaterSpecs.from_si(densities=dens, scale=scale)
+    grid = grids.make_grid(dict(cfg, radius=float(specs.radius)))
+    coords = cs.CoordinateSystem(grid, lc.LayerCoordinates(nl))
+    return specs, coords
+  specsA, coordsA = build(sA); specsB, coordsB = build(sB)
+  grid = coordsA.horizontal
+  base, zm = models.admissible_masks(grid)
+  oro_si = rng.uniform(-2e3, 2e3, grid.modal_shape) * base
+  phi_si = np.array([4.0e4])
+  g = lambda specs, arr: np.asarray(specs.nondimensionalize(arr * u.m ** 2 / u.s ** 2))
+  ctx.encoded(sw.shallow_water_leapfrog_trajectory, sw.default_filters, sw.ShallowWaterSpecs.from_si)
+
+  def traj(specs, coords):
+    dt = float(specs.nondimensionalize(dt_si))
+    return sw.shallow_water_leapfrog_trajectory(coords, dt, specs, inner_steps=1, outer_steps=outer, mean_potential=g(specs, phi_si), orography=g(specs, oro_si),
+                                                filters=(__import__('dinosaur.time_integration', fromlist=['x']).robert_asselin_leapfrog_filter(0.05),), alpha=0.5)
+  tA = traj(specsA, coordsA); tB = traj(specsB, coordsB)
+  LA, TA, MA, HA = base_si(sA)
+  ms = (nl,) + grid.modal_shape
+  sp = Space(bits=10)
+  b_ = np.broadcast_to
+  rate_box = 2e-5 * TA; pot_box = 500.0 * TA ** 2 / LA ** 2
+  mk = lambda pre: [PolyArr.variables(sp, pre + 'v', ms, -rate_box, rate_box, free=b_(zm, ms)), PolyArr.variables(sp, pre + 'd', ms, -rate_box, rate_box, free=b_(zm, ms)),
+                    PolyArr.variables(sp, pre + 'p', ms, -pot_box, pot_box, free=b_(base, ms))]
+  r = f['rate']; fp = f['potential']
+
+  def both(v0, d0, p0, v1, d1, p1):
+    _, fa = tA((sw.State(v0, d0, p0), sw.State(v1, d1, p1)))
+    _, fb = tB((sw.State(v0 * r, d0 * r, p0 * fp), sw.State(v1 * r, d1 * r, p1 * fp)))
+    return (fb.vorticity, fb.divergence, fb.potential), (fa.vorticity * r, fa.divergence * r, fa.potential * fp)
+  prove_close(ctx, 'sw.trajectory_frames_equal_in_SI', both, mk('a') + mk('b'), sp, config=dict(grid=grids.cfg_name(cfg), scale_a=sa, scale_b=sb, frames=outer, dt_si='600 s'))
+
+
 def make_tasks(tier, seed):
   LS = models.level_sets(seed)
   cfg = dict(M=3, L=4, nlon=8, nlat=5)
@@ -235,6 +282,9 @@ def make_tasks(tier, seed):
     add(cfg, 'dy2', 'moist' if one in ('mass', 'temperature') else 'dry', 'default', f'default_{one}_only')
   tasks.append(dict(name='held-suarez-default-time-only', fn='task_held_suarez', kw=dict(cfg=cfg, levels=LS['dy2'].tolist(), lname='dy2', sa='default', sb='default_time_only', seed=seed)))
   tasks.append(dict(name='sw-default-time-only', fn='task_sw', kw=dict(cfg=cfg, sa='default', sb='default_time_only', seed=seed)))
+  cfg2 = dict(M=2, L=3, nlon=5, nlat=4)
+  tasks.append(dict(name='sw-trajectory-default-odd', fn='task_sw_trajectory', kw=dict(cfg=cfg2, sa='default', sb='odd', seed=seed)))
+  tasks.append(dict(name='sw-trajectory-default-time-only', fn='task_sw_trajectory', kw=dict(cfg=cfg2, sa='default', sb='default_time_only', seed=seed)))
   tasks.append(dict(name='held-suarez-default-odd', fn='task_held_suarez', kw=dict(cfg=cfg, levels=LS['dy3'].tolist(), lname='dy3', sa='default', sb='odd', seed=seed)))
   tasks.append(dict(name='held-suarez-si-seeded', fn='task_held_suarez', kw=dict(cfg=cfg, levels=LS['dy2'].tolist(), lname='dy2', sa='si', sb='seeded', seed=seed)))
   for sa, sb in (('default', 'odd'), ('si', 'seeded')):
